@@ -23,7 +23,7 @@ Full statement aimed at (kept visible; what is proved of it is listed below):
   tokens; `rr_line_*`, `ttl_take_*` — owner / TTL / class inheritance of the line machine;
   `parse_render_partial` — end to end for files of the stated shape.
 -/
-import HickoryVerif.Lemmas.ZoneLexFile
+import HickoryVerif.Lemmas.ZoneParseFile
 
 namespace HickoryVerif.C20
 open HickoryVerif HickoryVerif.ZoneLex HickoryVerif.ZoneParse HickoryVerif.Spec.MasterFile
@@ -147,5 +147,187 @@ theorem ttl_take_default (l : Option Nat) (v : Nat) :
 theorem ttl_take_last (v : Nat) : Ttl.take ⟨none, some v, none⟩ = (some v, ⟨none, some v, none⟩) := rfl
 /-- … else there is none (and the record is refused) -/
 theorem ttl_take_none : Ttl.take ⟨none, none, none⟩ = (none, ⟨none, none, none⟩) := rfl
+
+end HickoryVerif.C20
+
+namespace HickoryVerif.C20
+open HickoryVerif HickoryVerif.ZoneLex HickoryVerif.ZoneParse HickoryVerif.Spec.MasterFile
+
+/-! ## the layouts the code mishandles — kernel-checked replays of the known findings
+
+Each text is the corpus line of the finding (`corpus/C20/known-findings.case`); the model is
+evaluated on it with the fuel twin (`parseN_eq`: a result with fuel *is* the result of `parse`). -/
+
+def exampleCom : Name := { labels := [[101, 120, 97, 109, 112, 108, 101], [99, 111, 109]], fqdn := true }
+
+/-- all TXT strings a result holds, set by set -/
+def loadedTxt : ZR (Name × List (Key × RSet)) → Option (List (List Bytes))
+  | .ok (_, m) => some ((m.flatMap fun (_, rs) => rs.records).filterMap fun r =>
+      match r.data with
+      | .txt ss => some ss
+      | _ => none)
+  | _ => none
+
+/-- an observation of the result computed with fuel is that observation of `parse` -/
+theorem observe_of_fuel {α} {n : Nat} {t : List Nat} {o : Option Name}
+    {f : ZR (Name × List (Key × RSet)) → α} {v : α}
+    (h : (parseN n t o).map f = some v) : f (parse t o) = v := by
+  cases hp : parseN n t o with
+  | none => simp [hp] at h
+  | some r => rw [parseN_eq hp]; simpa [hp] using h
+
+def isErr {α} : ZR α → Bool
+  | .err => true
+  | _ => false
+
+theorem eq_err_of_isErr {α} {x : ZR α} (h : isErr x = true) : x = .err := by
+  cases x <;> simp_all [isErr]
+
+/-- number of records a result holds (`none` if it is not `ok`) -/
+def loadedCount : ZR (Name × List (Key × RSet)) → Option Nat
+  | .ok (_, m) => some (m.flatMap fun (_, rs) => rs.records).length
+  | _ => none
+
+/-- `a 60 IN TXT ( "hello world" )\n` -/
+def textQuoteInsideList : List Nat :=
+  [97, 32, 54, 48, 32, 73, 78, 32, 84, 88, 84, 32, 40, 32, 34, 104, 101, 108, 108, 111, 32, 119, 111,
+   114, 108, 100, 34, 32, 41, 10]
+
+/-- **finding (ii), class `quote-inside-list`**: the group denotes one string `hello world`;
+the code loads the two strings `"hello` and `world"`. -/
+theorem finding_quote_inside_list :
+    (scan textQuoteInsideList).quoteInsideList = true ∧
+    loadedTxt (parse textQuoteInsideList (some exampleCom)) =
+      some [[[34, 104, 101, 108, 108, 111], [119, 111, 114, 108, 100, 34]]] := by
+  exact ⟨by decide, observe_of_fuel (n := 80) (by decide +kernel)⟩
+
+end HickoryVerif.C20
+
+namespace HickoryVerif.C20
+open HickoryVerif HickoryVerif.ZoneLex HickoryVerif.ZoneParse HickoryVerif.Spec.MasterFile
+
+/-! ## end to end: a rendered file loads to the records its entries state
+
+Full statement aimed at: `∀ layout records, parse (render layout records) = ok records`.
+Proved here for every file made of the entry forms of RFC 1035 §5.1 / RFC 2308 §4 in any layout
+of the printer (`File.ok`), under three explicit, decidable restrictions:
+
+* (lexical) no quoted string inside parentheses, no `\DDD` — the known findings;
+* (`readFile … = some …`) TTLs are decimal and fit `u32`, classes are IN/CH/HS, types are the ten
+  modelled mnemonics in any letter case, parentheses only in the RDATA, every record has a TTL
+  (its own, `$TTL`, or the last explicit one), `<blank>`/`@` owners have something to inherit;
+* (`FileNamesOK`) each owner / `$ORIGIN` name text parses to the name the entry is taken to state
+  (`parseName_host` discharges this for host-style names).
+
+The result is expressed with `storeAll`: each stated record, inheritance resolved by the *RFC
+reader* `readFile`, has its RDATA items interpreted by `RData::from_tokens` and is inserted by
+`Context::insert`'s map update, in file order. -/
+theorem parse_render_partial (o : Name) (ls : List SLine) (st' : RState) (es : List Entry)
+    (hlex : File.ok (ls.map SLine.line) = true)
+    (hread : readFile { origin := some { o with fqdn := true } } ls = some (st', es))
+    (hnames : FileNamesOK { origin := some { o with fqdn := true } } ls) :
+    parse (render (ls.map SLine.line)) (some o) =
+      (storeAll [] es).bind fun m =>
+        match st'.origin with
+        | some o' => .ok (o', m)
+        | none => .err := by
+  rw [parse_render_tokens _ hlex]
+  have hinit : initCtx (some o) = ctxOf { origin := some { o with fqdn := true } } [] none := rfl
+  rw [hinit, feed_file ls _ st' [] none es hread hnames]
+  cases storeAll [] es with
+  | ok m => simp only [ZR.bind_ok, finish, ctxOf]; rfl
+  | err => rfl
+  | unmodelled => rfl
+  | panic s => rfl
+
+/-- owner, TTL and class inheritance as the RFC reader resolves it — on the tokens of one entry
+the line machine agrees with it (`feed_line`), restated for the three inheritance sources -/
+theorem rr_line_inherits (st st' : RState) (m : List (Key × RSet)) (rt : Option RType) (r : RRLine)
+    (e : Entry) (hr : readLine st (.rr r) = some (st', some e)) (hn : LineNamesOK st (.rr r)) :
+    feed (ctxOf st m rt) .startLine (lineTokens (SLine.rr r).line) =
+      (storeEntry m e).bind fun m' => .ok (ctxOf st' m' (rtAfter (.rr r)), .startLine) :=
+  feed_line st st' m rt (.rr r) (some e) hr hn
+
+/-! ### a concrete file satisfying all hypotheses (non-vacuity), and what it loads to -/
+
+def wWWW : List Nat := [119, 119, 119]                       -- "www"
+def nWWW : Name := { labels := [[119, 119, 119], [101, 120, 97, 109, 112, 108, 101], [99, 111, 109]], fqdn := true }
+
+/-- ```
+    $TTL 300 ; default
+    www  IN TXT ( a
+            b ) "c d"
+      60 A 1.2.3.4
+    ``` -/
+def sampleZone : List SLine :=
+  [ .ttl [32] [51, 48, 48] ⟨[32], some [32, 100], 0⟩,
+    .rr ⟨.name wWWW nWWW, [([32, 32], [73, 78])], ([32], [84, 88, 84]),
+         [.group [32] [([.ws 32], [97]), ([.ws 10, .ws 32], [98])] [.ws 32],
+          .item [32] (.quoted [.raw 99, .raw 32, .raw 100])], ⟨[], none, 0⟩⟩,
+    .rr ⟨.inherit 32, [([32], [54, 48])], ([32], [65]), [.item [32] (.word [49, 46, 50, 46, 51, 46, 52])],
+         ⟨[], none, 1⟩⟩ ]
+
+example : File.ok (sampleZone.map SLine.line) = true := by decide
+
+example : (readFile { origin := some exampleCom } sampleZone).map (·.2) =
+    some [ { owner := nWWW, cls := 1, ttl := 300, typ := 16, origin := some exampleCom, rdata := [[97], [98], [99, 32, 100]] },
+           { owner := nWWW, cls := 1, ttl := 60, typ := 1, origin := some exampleCom, rdata := [[49, 46, 50, 46, 51, 46, 52]] } ] := by
+  decide
+
+example : FileNamesOK { origin := some exampleCom } sampleZone := by
+  unfold FileNamesOK; decide
+
+/-! ## the layouts the code mishandles — more kernel-checked replays -/
+
+/-- `a 60 IN TXT ( "v=DKIM1; k=rsa" )\n` -/
+def textSemicolonInsideQuotedListItem : List Nat :=
+  [97, 32, 54, 48, 32, 73, 78, 32, 84, 88, 84, 32, 40, 32, 34, 118, 61, 68, 75, 73, 77, 49, 59, 32,
+   107, 61, 114, 115, 97, 34, 32, 41, 10]
+
+/-- **finding (ii'), class `semicolon-inside-quoted-list-item`**: a well-formed entry (one TXT
+string) is rejected, because the `;` inside the quoted string starts a comment that swallows
+the closing parenthesis. -/
+theorem finding_semicolon_inside_quoted_list_item :
+    (scan textSemicolonInsideQuotedListItem).semicolonInsideQuotedListItem = true ∧
+    parse textSemicolonInsideQuotedListItem (some exampleCom) = .err :=
+  ⟨by decide, eq_err_of_isErr (observe_of_fuel (n := 80) (by decide +kernel))⟩
+
+/-- `a 60 IN TXT "\065bc"\n` -/
+def textDecimalEscape : List Nat :=
+  [97, 32, 54, 48, 32, 73, 78, 32, 84, 88, 84, 32, 34, 92, 48, 54, 53, 98, 99, 34, 10]
+
+/-- **finding (iii), class `decimal-escape-arithmetic`**: `\065` denotes the octet 65 (`A`); the
+code computes `(0<<16)+(6<<8)+5 = U+0605` and stores its UTF-8 bytes `d8 85`. -/
+theorem finding_decimal_escape :
+    (scan textDecimalEscape).decimalEscape = true ∧
+    loadedTxt (parse textDecimalEscape (some exampleCom)) = some [[[216, 133, 98, 99]]] :=
+  ⟨by decide, observe_of_fuel (n := 80) (by decide +kernel)⟩
+
+/-- `a_b 60 IN A 1.2.3.4\n` -/
+def textNameNotLdh : List Nat :=
+  [97, 95, 98, 32, 54, 48, 32, 73, 78, 32, 65, 32, 49, 46, 50, 46, 51, 46, 52, 10]
+
+/-- **finding (iv), class `name-label-not-ldh`**: the owner `a_b.example.com.` is a legal domain
+name; the zone file stating it is rejected (IDNA/STD3 refuses `_` inside a label). -/
+theorem finding_name_label_not_ldh :
+    nameNotLdh { labels := [[97, 95, 98], [101, 120, 97, 109, 112, 108, 101], [99, 111, 109]], fqdn := true } = true ∧
+    parse textNameNotLdh (some exampleCom) = .err :=
+  ⟨by decide, eq_err_of_isErr (observe_of_fuel (n := 80) (by decide +kernel))⟩
+
+/-- `a\;b 60 IN A 1.2.3.4\n` : the escaped `;` is not honoured in a contiguous item — the rest of
+the line is taken as a comment and **no record is loaded, without any error**. -/
+def textEscapedSemicolonInName : List Nat :=
+  [97, 92, 59, 98, 32, 54, 48, 32, 73, 78, 32, 65, 32, 49, 46, 50, 46, 51, 46, 52, 10]
+
+theorem finding_escaped_semicolon_drops_record :
+    loadedCount (parse textEscapedSemicolonInName (some exampleCom)) = some 0 :=
+  observe_of_fuel (n := 80) (by decide +kernel)
+
+/-- the same strings in a layout inside `File.ok` load as denoted: `a 60 IN TXT ( hello world )` -/
+theorem good_group_loads :
+    loadedTxt (parse [97, 32, 54, 48, 32, 73, 78, 32, 84, 88, 84, 32, 40, 32, 104, 101, 108, 108, 111,
+      32, 119, 111, 114, 108, 100, 32, 41, 10] (some exampleCom)) =
+      some [[[104, 101, 108, 108, 111], [119, 111, 114, 108, 100]]] :=
+  observe_of_fuel (n := 80) (by decide +kernel)
 
 end HickoryVerif.C20
